@@ -214,7 +214,7 @@ ASSUME = ["the f64 statement oracle uses alpha = 1 and sweep start angle 0 (see 
 
 
 def run(ctx):
-    return _scene.run_property(ctx, CFG, 1500, 20000, RULE, concrete, ASSUME, post=post, nontrivial=nontrivial)
+    return _scene.run_property(ctx, CFG, 2500, 20000, RULE, concrete, ASSUME, post=post, nontrivial=nontrivial)
 
 
 def replay(ctx, path):
